@@ -51,7 +51,7 @@ static void gen_mpf(ByteSource& in, F& x, size_t maxlimbs, CaseInfo& ci) {
     static const int ks[] = {15, 16, 31, 32, 63, 64}; Int t = ref::pow2(ks[in.range(0, 5)]) + Int((long long)in.srange(-1, 1)); bool frac = in.flag();
     Int m = frac ? ref::shl(t, 64) + Int::from_u64(in.u64() | 1) : t; Limbs w = m.m; while (w.size() > 1 && w[0] == 0 && !frac) break; v = w; n = v.size(); ex = (long)n - (frac ? 1 : 0); ci.label("mpf:near_boundary"); }
   mpf_set_prec(x.f, 64 * std::max<size_t>(n, 1));
-  for (size_t i = 0; i < n; i++) x.f->_mp_d[i] = v[i]; x.f->_mp_size = neg ? -(int)n : (int)n; x.f->_mp_exp = n ? ex : 0;
+  for (size_t i = 0; i < n; i++) x.f->_mp_d[i] = v[i]; x.f->_mp_size = neg ? -(int)n : (int)n; x.f->_mp_exp = n ? ex : 0; for (size_t i = n; i < (size_t)x.f->_mp_prec + 1; i++) x.f->_mp_d[i] = 0xdeadbeefdeadbeefull;   // stale limbs above the size are unspecified: poison
   x.v.m = Int::from_limbs(v.data(), n, neg); x.v.e = n ? 64 * (ex - (long)n) : 0;
 }
 static Int trunc_int(const Dy& v) { return v.e >= 0 ? ref::shl(v.m, v.e) : ref::tshr(v.m, -v.e); }
